@@ -118,6 +118,8 @@ def gen_pairs(api, tier, fams):
             for l in plan.layouts_for("quick"):
                 for ity in CONV_INTS:
                     out += sp.conv_int(l, ity)
+        if out:
+            out = out + sp.controls2(out[0].family)
         pairs[fam] = out
     return pairs
 
@@ -156,7 +158,7 @@ def results(api, tier, fams):
     for fam, ps in pairs.items():
         crates += crates_for(fam, ps)
     built = B.build("on", crates)
-    astamp = C.file_hash(os.path.join(HERE, "engine_e.py"), os.path.join(HERE, "llir.py"))
+    astamp = C.file_hash(os.path.join(HERE, "engine_e.py"), os.path.join(HERE, "engine_e2.py"), os.path.join(HERE, "llir.py"))
     jobs, res = [], {}
     for cr in crates:
         ll = built[cr.name]["ll"]
@@ -202,12 +204,13 @@ def run(report, tier, fams, label, select=None):
     per_family = collections.Counter()
     how_counts = collections.Counter()
     for oid, (p, v, how) in R.items():
-        if select is not None and not select(p):
-            continue
         if p.expect == "different":
+            # controls of every family built for this run are checked, whatever the selection
             if v != "different":
                 raise run_a.EngineError("E control %s: two different functions compare as %s (%s)" % (oid, v, how))
             stats["controls"] += 1
+            continue
+        if select is not None and not select(p):
             continue
         stats["candidates"] += 1
         e = reg.get(p.cls)
